@@ -809,6 +809,10 @@ def filtered(c, cmin):
 
 def ln(x):
     import numpy as _np
+    if isinstance(x, Fraction):
+        x = float(x)
+    elif isinstance(x, list):
+        x = _np.asarray([float(v) for v in x])
     with _np.errstate(all="ignore"):
         return _np.log(x)
 
@@ -945,3 +949,68 @@ def v_loop(v, n):
     import tidytcells as tt
     d = tt.tr.get_aa_sequence(v)
     return d.get(f"CDR{int(n)}-IMGT", "")
+
+
+# ---- C13: grouped statistics
+def group_values(df, by, f):
+    return df.groupby(by).apply(f)
+
+
+def groups_where(df, by, f):
+    return df.groupby(by).filter(f)
+
+
+def is_int(x):
+    import numpy as _np
+    return isinstance(x, (int, Fraction)) and not isinstance(x, bool)
+
+
+def _groups(df, by):
+    return sorted(list(df.groupby(by)), key=lambda t: t[0])
+
+
+def _num_close(a, b):
+    import numpy as _np
+    a, b = _np.asarray(a, dtype=float), _np.asarray(b, dtype=float)
+    return a.shape == b.shape and bool(_np.allclose(a, b, rtol=1e-9, atol=1e-12, equal_nan=True))
+
+
+def cross_table_ok(result, df, by, f_cross, f_diag):
+    """result is the square table over the sorted group names with [g, h] = f_cross(group g, group h) for g != h (both orders) and
+    f_diag(group g) on the diagonal (NaN when f_diag is None)"""
+    import numpy as _np
+    gs = _groups(df, by)
+    names = [n for n, _ in gs]
+    if list(result.index) != names or list(result.columns) != names:
+        return False
+    for i, (ng, dg) in enumerate(gs):
+        for j, (nh, dh) in enumerate(gs):
+            v = result.iloc[i, j]
+            if i == j:
+                if f_diag is None:
+                    if not (isinstance(v, float) and v != v):
+                        return False
+                elif not _num_close(v, f_diag(dg)):
+                    return False
+            else:
+                a, b = (dg, dh) if i < j else (dh, dg)
+                if not _num_close(v, f_cross(a, b)):
+                    return False
+    return True
+
+
+def condensed_table_ok(result, df, by, f_cross):
+    import itertools as _it
+    gs = _groups(df, by)
+    pairs = list(_it.combinations(gs, 2))
+    if len(result) != len(pairs):
+        return False
+    for r, ((ng, dg), (nh, dh)) in enumerate(pairs):
+        if tuple(result.index[r]) != (ng, nh) or not _num_close(result.iloc[r].to_numpy(), _np_flat(f_cross(dg, dh))):
+            return False
+    return True
+
+
+def _np_flat(v):
+    import numpy as _np
+    return _np.atleast_1d(_np.asarray(v, dtype=float))
